@@ -7,7 +7,17 @@ import sys
 import tempfile
 
 
+class _Timeout(Exception):
+    pass
+
+
+def _alarm(signum, frame):
+    raise _Timeout()
+
+
 def arith(nmax, pmax):
+    import signal
+    signal.signal(signal.SIGALRM, _alarm)
     import esr.generation.utils as utils
     import esr.fitting.test_all as test_all
 
@@ -33,17 +43,23 @@ def arith(nmax, pmax):
         for P in range(1, pmax + 1):
             for r in range(P):
                 try:
+                    signal.alarm(3)
                     si = utils.split_idx(N, r, P)
                     si = [int(v) for v in si]
                 except Exception as e:
                     si = "EXC:" + type(e).__name__
+                finally:
+                    signal.alarm(0)
                 test_all.rank, test_all.size = r, P
                 try:
+                    signal.alarm(3)
                     with contextlib.redirect_stdout(io.StringIO()):
                         fl, ds, de = test_all.get_functions(1, lik)
                     gf = [[int(s.strip()[1:]) for s in fl], int(ds), int(de)]
                 except Exception as e:
                     gf = "EXC:" + type(e).__name__
+                finally:
+                    signal.alarm(0)
                 out.append([N, P, r, si, gf])
     import shutil
     shutil.rmtree(d, ignore_errors=True)
